@@ -370,6 +370,8 @@ class Gen:
 
     def operand(self, ty, d):
         """right-hand operand: sometimes a bare Python value"""
+        if self.r.random() < 0.05:
+            return ("py", None)          # a bare Python None: the operator sees NULL (col == None is NULL on every row)
         if self.r.random() < 0.3:
             return ("py", self.pyval(ty))
         return self.gen(ty, d)
@@ -498,6 +500,11 @@ def exhaustive(max_depth=2):
                   ("cast", ("alias", ("cast", D, "bigint"), "whole"), "double"), ("cast", ("cast", ("neg", D), "int"), "double")]
     d1["str"] += [("substr", S, ("py", p), ("py", n)) for p in (-3, -2, -1, 1, 2, 3) for n in (1, 2)] \
         + [("substr", T, ("py", -1), ("py", 1)), ("substr", S, ("py", 0), ("py", 2)), ("substr", S, ("lit", -2), ("lit", 2))]
+    NONE = ("py", None)
+    d1["bool"] += [("bin", "==", A, NONE), ("bin", "!=", A, NONE), ("bin", "<", A, NONE), ("bin", ">=", A, NONE),
+                   ("bin", "==", S, NONE), ("bin", "!=", S, NONE), ("bin", "==", P, NONE), ("bin", "!=", P, NONE),
+                   ("nse", A, NONE), ("between", A, NONE, B), ("bin", "&", P, NONE), ("bin", "|", P, NONE)]
+    d1["int"] += [("bin", "+", A, NONE), ("rbin", "+", None, A), ("rbin", "-", None, A)]
     d1["bool"] += [("bin", "<", D, ("py", 1)), ("bin", "==", ("cast", D, "int"), A), ("isnull", D),
                    ("bin", "==", ("substr", S, ("py", -1), ("py", 1)), ("py", "b"))]
     out = [t for ts in d1.values() for t in ts]
